@@ -344,6 +344,10 @@ namespace GeographicLib {
                         _alt_zone, northp,
                         _alt_easting, _alt_northing, _alt_gamma, _alt_k,
                         zone);
+        // The alternate coordinates share the hemisphere, _northp, of the main
+        // ones; this can differ from northp for a point on the equator.
+        if (_alt_zone != UTMUPS::UPS && northp != _northp)
+          _alt_northing += (_northp ? -1 : 1) * UTMUPS::UTMShift();
       }
     }
 
